@@ -5,6 +5,7 @@ mod hist;
 mod json;
 mod mon;
 mod node;
+mod procs;
 mod rcprog;
 mod rcrun;
 mod rng;
@@ -134,6 +135,23 @@ fn main() {
                 .set("monitor_evals", mon::evals_json())
                 .set("wall_s", t0.elapsed().as_secs_f64());
             println!("{}", j.to_string());
+        }
+        "c07child" => {
+            procs::c07_child(&args.str("shape", "chain"), args.u64("n", 1000) as usize, args.u64("stack", 2 << 20) as usize);
+            return;
+        }
+        "c20child" => {
+            procs::c20_child(args.u64("case", 0) as u32, args.u64("order", 0) as u32, args.u64("threads", 1) as usize, args.u64("main-exit", 0) == 1);
+            return;
+        }
+        "c07" | "c20" => {
+            let thorough = args.str("tier", "quick") == "thorough";
+            let o = if cmd == "c07" {
+                procs::c07(thorough, args.u64("shard", 0), args.u64("nshards", 1))
+            } else {
+                procs::c20(thorough, args.u64("shard", 0), args.u64("nshards", 1))
+            };
+            println!("{}", procs::summary(&cmd, o, t0.elapsed().as_secs_f64()).to_string());
         }
         "noop" => {}
         _ => {
